@@ -126,6 +126,9 @@ class SmtLibSolver(Solver): # TODO this class is defined twice in pysmt. Here an
         """Reads and parses an assignment from the STDOUT pipe"""
         lst = self.parser.get_assignment_list(self.solver_stdout)
         self._debug("Read: %s", lst)
+        # The answer is terminated by a newline that the parser does
+        # not consume: it must not be read as the next answer
+        self.solver_stdout.readline()
         return lst
 
     def _declare_sort(self, sort):
